@@ -42,6 +42,7 @@ class Server:
         self.q = queue.Queue()
         self.next_id = 0
         self.hold_config = False
+        self.config_override = None  # a client that answers workspace/configuration with something else (e.g. {"error": {...}})
         self.held = []  # ids of workspace/configuration requests not answered yet
         self.config_requests = 0
         self.publishes = {}  # uri -> list of (seq, diagnostics)
@@ -133,6 +134,8 @@ class Server:
                 self.config_requests += 1
                 if self.hold_config:
                     self.held.append(m["id"])
+                elif self.config_override is not None:
+                    self.send(dict({"jsonrpc": "2.0", "id": m["id"]}, **self.config_override))
                 else:
                     self.send({"jsonrpc": "2.0", "id": m["id"], "result": [self.settings]})
             else:
